@@ -57,7 +57,7 @@ func fieldNameUses(v *tmpl.Variant) []fieldUse {
 }
 
 func checkC06(c *core.Ctx, l *core.Ledger) {
-	l.Explanation = "Static clauses of C06 on the generator: (SKELETON-PARSE) every declaration template, abstractly expanded over all feasible assignments of its schema predicates (finite: every field-shape class the generator can emit), parses as Go; (FIELD-NAME) wherever a template selects a field of a generated struct (selector or composite-literal key) with a name computed from a field specification, it uses the same naming function as the struct declaration (goName, which honours go.name), never one applied to the raw Thrift name; (RESERVE) a declaration is appended to the output only after its top-level name was reserved (or the conflict was deliberately ignored by EnsureDeclared); (NO-INPLACE) no function compacts a slice parameter in place (the caller's data, e.g. spec.Items, is read again later); (PANIC-DEFAULT) every type switch over compile.TypeSpec / compile.ConstantValue in gen whose default panics is exhaustive, so accepted programs cannot crash the generator. (RESERVED-UNIVERSE) every Go keyword, and every predeclared identifier that the checked-in generated code refers to by its bare name, is answered 'reserved' by goast.IsReservedKeyword (the set is extracted from the predicate and its initialisers), and both name allocators consult it — so an import alias derived from a user-chosen file name cannot shadow a name the generated file relies on. (NAME-AGREE) constants, user-defined types and enum items are referred to through the same naming function that names their declaration. (CONSTPTR-AGREE) for every TypeSpec kind and typedef-of-kind, the default expression ConstantValuePtr produces has the pointer depth of the optional field it is assigned to (typeReferencePtr) — finite-domain path analysis of ConstantValuePtr, typeReference and typeReferencePtr. (METHOD-RESERVE) the accessor template reserves the field name and every accessor name it declares (Get<F>, IsSet<F>) in one namespace before declaring them, so a field whose Go name equals another field's accessor is rejected at generation time. (ZAP-CAST) the zap code generated for a typedef without marshal methods casts the field to the typedef's root type — the type the encoder method is chosen by. NOT decided: that every valid program is accepted or that accepted programs type-check in general (import aliasing, package layout)."
+	l.Explanation = "Static clauses of C06 on the generator: (SKELETON-PARSE) every declaration template, abstractly expanded over all feasible assignments of its schema predicates (finite: every field-shape class the generator can emit), parses as Go; (FIELD-NAME) wherever a template selects a field of a generated struct (selector or composite-literal key) with a name computed from a field specification, it uses the same naming function as the struct declaration (goName, which honours go.name), never one applied to the raw Thrift name; (RESERVE) a declaration is appended to the output only after its top-level name was reserved (or the conflict was deliberately ignored by EnsureDeclared); (NO-INPLACE) no function compacts a slice parameter in place (the caller's data, e.g. spec.Items, is read again later); (PANIC-DEFAULT) every type switch over compile.TypeSpec / compile.ConstantValue in gen whose default panics is exhaustive, so accepted programs cannot crash the generator. (RESERVED-UNIVERSE) every Go keyword, and every predeclared identifier that the checked-in generated code refers to by its bare name, is answered 'reserved' by goast.IsReservedKeyword (the set is extracted from the predicate and its initialisers), and both name allocators consult it — so an import alias derived from a user-chosen file name cannot shadow a name the generated file relies on. (NAME-AGREE) constants, user-defined types and enum items are referred to through the same naming function that names their declaration. (CONSTPTR-AGREE) for every TypeSpec kind and typedef-of-kind, the default expression ConstantValuePtr produces has the pointer depth of the optional field it is assigned to (typeReferencePtr) — finite-domain path analysis of ConstantValuePtr, typeReference and typeReferencePtr. (METHOD-RESERVE) the accessor template reserves the field name and every accessor name it declares (Get<F>, IsSet<F>) in one namespace before declaring them, so a field whose Go name equals another field's accessor is rejected at generation time. (ZAP-CAST) the zap code generated for a typedef without marshal methods casts the field to the typedef's root type — the type the encoder method is chosen by. (FRESH-CLAIM) every fresh-name search (mangler, namespace, plugin import names) records as taken exactly the candidate that left the search, in a set the search consults. NOT decided: that every valid program is accepted or that accepted programs type-check in general (import aliasing, package layout)."
 	l.RuleText = "one obligation per template (all its variants) / selector use / call site / switch"
 	l.Assumptions = []string{"helper functions return a syntactic fragment of the category their abstract model assumes (table funcCategory; corroborated by the checked-in generated files parsing)"}
 	mod := tmpl.Extract(c)
@@ -164,6 +164,7 @@ func checkC06(c *core.Ctx, l *core.Ledger) {
 	checkConstPtrAgree(c, l, "CONSTPTR-AGREE")
 	checkMethodReserve(c, l, mod)
 	checkZapCast(c, l)
+	checkFreshClaim(c, l, "FRESH-CLAIM", []string{"gen", "plugin"}, 3)
 
 	// PANIC-DEFAULT
 	checkSwitchPanics(c, l, "PANIC-DEFAULT", []string{"gen"})
